@@ -183,6 +183,7 @@ func (c *Cluster) schema() zenodb.Schema {
 
 // Start brings up leaders and followers on fresh directories under base.
 func Start(base string, cfg Config) (*Cluster, error) {
+	dbdrv.RelieveDescriptors()
 	if cfg.Leaders == 0 {
 		cfg.Leaders = 1
 	}
